@@ -36,6 +36,7 @@ METRICS = dict(center_distance_thresholds=[[1.0, 1.0], [0.4, 2.0]], plane_distan
 ALL_THR = {"cd": [1.0, 0.4, 2.0, 3.0, 1.5], "pd": [2.0, 1.0, 0.5], "iou": [0.3, 0.2]}
 
 
+HIGH_EGOS = [(312.5, -148.25, 612.0, 0.7, 0.0, 0.0), (-20.0, 35.0, -45.0, -2.1, 0.0, 0.0)]
 FAR_EGOS = [(89412.25, 42356.5, 0.6), (-51234.5, 77001.75, -2.2), (41000.0, -93000.0, 3.0)]
 TWIN_DX = [0.0, 0.135, 0.3, 0.6, 1.3]
 TWIN_DY = [0.0, 0.2, 0.334, 0.8]
@@ -65,6 +66,10 @@ def units(tier, seed):
     # map-frame objects whose coordinates are all integers (hand-made / rounded inputs) against the float ego-frame rendering
     for e in egos:
         u.append(dict(task="intpos", ego=e))
+    # slightly tilted boxes (pitch / roll of 1-3 degrees) seen from a level ego whose map height is 612 m / -45 m (terrain elevation)
+    for he in range(len(HIGH_EGOS)):
+        for k in range(2):
+            u.append(dict(task="detection", ego=0, ego_override=list(HIGH_EGOS[he]), tilt=True, policy="DEFAULT", mgr="wide", crit="box_per_label", kmax_e=2, chunk=[k, 2]))
     # near-twin ground truths (same label, heading, height; 0.1 .. 1.3 m apart) with the ego at map-scale coordinates
     for fe in range(len(FAR_EGOS)):
         u.append(dict(task="twins", far_ego=fe))
@@ -125,6 +130,11 @@ def run_unit(unit, acc):
                 continue
             c = dict(task=unit["task"], ego_index=unit["ego"], policy=unit["policy"], mgr=unit["mgr"], crit=unit["crit"],
                      ests=[est[i] for i in es], gts=[gt[j] for j in gs], seed=_SEED[0])
+            if unit.get("tilt"):
+                c["ego_override"] = unit["ego_override"]
+                c["tilt"] = True
+                c["ests"] = [dict(s_, pitch=0.012, roll=-0.02) for s_ in c["ests"]]
+                c["gts"] = [dict(s_, pitch=-0.035 if j % 2 == 0 else 0.03, roll=0.015) for j, s_ in enumerate(c["gts"])]
             if unit["task"] == "tracking":
                 c["pattern"] = unit["pattern"]
             check_case(c, acc)
@@ -135,6 +145,8 @@ def _shift(s, k):
 
 
 def _ego_at(base, k):
+    if len(base) == 6:
+        return (base[0] + 2.0 * k, base[1] - 1.0 * k, base[2], base[3] + 0.2 * k, base[4], base[5])
     return (base[0] + 2.0 * k, base[1] - 1.0 * k, base[2] + 0.2 * k)
 
 
@@ -422,6 +434,12 @@ def check_case(case, acc):
         if case.get("loose"):   # coordinates ~1e5: polygon scores carry ~1e-7 noise; decisions and metrics are compared
             x, y = dict(x), dict(y)
             x.pop("scores", None), y.pop("scores", None)
+        if case.get("tilt"):
+            # tilted boxes: the yaw pyquaternion extracts is not exactly equivariant under a rotation about z (second order in
+            # roll*pitch, ~1e-4 in APH; the convention for tilted boxes is left open, see C09): AP / mAP and all decisions are compared
+            x, y = dict(x), dict(y)
+            for d_ in (x, y):
+                d_["ap"] = [[v for i_, v in enumerate(row) if not (len(row) // 2 - 1 <= i_ < len(row) - 2 or i_ == len(row) - 1)] for row in d_["ap"]]
         d = _diff(x, y)
         if d:
             what = "scene result" if k == len(a) - 1 else "frame %d" % k
